@@ -1,0 +1,104 @@
+//go:build verif
+
+package ics20
+
+// Contracts for the deductive checker in /verif (comment-only; compiled only with -tags verif).
+// C16, query side: the read-only ICS-20 methods report what the native IBC-transfer queries report.
+// Lib specs: /verif/specs/c16d/71_ics20_query.spec, /verif/specs/c16d-pre/50_abi_copy.spec, /verif/specs/c16q (context, page types).
+
+/*@
+alias IbcDenomTrace github.com/cosmos/ibc-go/v7/modules/apps/transfer/types.DenomTrace
+alias IbcTraces github.com/cosmos/ibc-go/v7/modules/apps/transfer/types.Traces
+
+// ------------------------------------------------------------------ request constructors: the request is the decoded arguments
+func NewDenomTraceRequest
+    let ok = len(args) == 1 && isdyn(args[0], string)
+    ensures err_iff: (result.1 == nil) == ok
+    ensures fields: result.1 == nil ==> result.0 != nil && fresh(result.0) && result.0.Hash == dyn(args[0], string)
+    ensures refused: result.1 != nil ==> result.0 == nil
+
+func NewDenomHashRequest
+    let ok = len(args) == 1 && isdyn(args[0], string)
+    ensures err_iff: (result.1 == nil) == ok
+    ensures fields: result.1 == nil ==> result.0 != nil && fresh(result.0) && result.0.Trace == dyn(args[0], string)
+    ensures refused: result.1 != nil ==> result.0 == nil
+
+// (page request) copied through abi.Arguments.Copy into PageRequest; the request points at the copied page request
+func NewDenomTracesRequest
+    requires method: method != nil
+    let ok = len(args) == 1 && abi_copy_ok(method.Inputs, args)
+    ensures err_iff: (result.1 == nil) == ok
+    ensures fields: result.1 == nil ==> result.0 != nil && fresh(result.0) && result.0.Pagination != nil
+            && (isdyn(args[0], PageReqABI) ==> pagereq_copied(*result.0.Pagination, dyn(args[0], PageReqABI)))
+    ensures refused: result.1 != nil ==> result.0 == nil
+
+// C04/C16: the sender of a transfer must be the direct caller of the precompile or the signer of the transaction
+func CheckOriginAndSender
+    requires nonnil: contract != nil
+    ensures err_iff: (result.1 == nil) == (contract.CallerAddress == sender || origin == sender)
+    ensures sender: result.1 == nil ==> result.0 == sender
+    ensures refused: result.1 != nil ==> result.0 == zero_EvmAddr
+
+// ------------------------------------------------------------------ the query methods
+// Preconditions are facts of the only call site (Precompile.Run): method is non-nil, the transfer keeper is the one built by
+// transferkeeper.NewKeeper (its embedded ibc-go keeper is non-nil).
+// Every method makes exactly one native query, with the decoded request, in the wrapped caller's context and on the precompile's
+// keeper; what is ABI-packed is the native response; the Cosmos state, the grants and the balance mirror are untouched (frame).
+
+// denomTrace(hash) -> the stored trace (path, base denom). A missing trace is reported as the empty trace - the case is recognised
+// by the text of the native error (types.ErrTraceNotFound "denomination trace not found")
+func (Precompile).DenomTrace
+    params p, ctx, contract, method, input
+    requires wf: method != nil && p.transferKeeper.Keeper != nil
+    let okargs = len(input) == 1 && isdyn(input[0], string)
+    let hash = dyn(input[0], string)
+    let found = qtrace_ok(cstate, ctx, hash)
+    let R = qtrace_res(cstate, ctx, hash)
+    let nativeErr = ret(DenomTrace, 1, 1)
+    let missing = str_contains(err_text(nativeErr), "denomination trace not found")
+    let O = dyn(args[0], IbcDenomTrace)
+    call Keeper.DenomTrace requires named: req != nil && req.Hash == hash && sdkctx_of(c) == ctx && q == *p.transferKeeper.Keeper
+    call Contains requires text: s == err_text(nativeErr) && substr == "denomination trace not found"
+    call Arguments.Pack requires packed: arguments == method.Outputs && len(args) == 1 && isdyn(args[0], IbcDenomTrace)
+            && ite(found, O.Path == R.Path && O.BaseDenom == R.BaseDenom, O.Path == "" && O.BaseDenom == "")
+    ensures refused: !okargs ==> result.1 != nil && len(result.0) == 0
+    ensures found: okargs && found ==> result.0 == ret(Pack, 1, 0) && result.1 == ret(Pack, 1, 1)
+    ensures missing: okargs && !found && missing ==> result.0 == ret(Pack, 2, 0) && result.1 == ret(Pack, 2, 1)
+    ensures other_error: okargs && !found && !missing ==> result.1 != nil && len(result.0) == 0
+
+// denomTraces(pageRequest) -> (the traces of the native page, in its order, and the native page response)
+func (Precompile).DenomTraces
+    params p, ctx, contract, method, input
+    requires wf: method != nil && p.transferKeeper.Keeper != nil
+    let okargs = len(input) == 1 && abi_copy_ok(method.Inputs, input)
+    let page = *ret(NewDenomTracesRequest, 1, 0).Pagination
+    let found = qtraces_ok(cstate, ctx, page)
+    let R = qtraces_res(cstate, ctx, page)
+    let P = dyn(args[1], *SdkPageResp)
+    call Keeper.DenomTraces requires named: req == ret(NewDenomTracesRequest, 1, 0) && sdkctx_of(c) == ctx && q == *p.transferKeeper.Keeper
+    call Keeper.DenomTraces requires page: isdyn(old(input[0]), PageReqABI) ==> pagereq_copied(*req.Pagination, dyn(old(input[0]), PageReqABI))
+    call Arguments.Pack requires packed: arguments == method.Outputs && len(args) == 2 && isdyn(args[0], IbcTraces) && dyn(args[0], IbcTraces) == R
+            && isdyn(args[1], *SdkPageResp) && P != nil && *P == qtraces_page(cstate, ctx, page)
+    ensures refused: !okargs ==> result.1 != nil && len(result.0) == 0
+    ensures found: okargs && found ==> result.0 == ret(Pack, 1, 0) && result.1 == ret(Pack, 1, 1)
+    ensures native_error: okargs && !found ==> result.1 != nil && len(result.0) == 0
+
+// denomHash(trace) -> the hex hash of the stored trace path; a missing trace is reported as the empty string (recognised by the
+// text of the native error)
+func (Precompile).DenomHash
+    params p, ctx, contract, method, input
+    requires wf: method != nil && p.transferKeeper.Keeper != nil
+    let okargs = len(input) == 1 && isdyn(input[0], string)
+    let trace = dyn(input[0], string)
+    let found = qhash_ok(cstate, ctx, trace)
+    let R = qhash_res(cstate, ctx, trace)
+    let nativeErr = ret(DenomHash, 1, 1)
+    let missing = str_contains(err_text(nativeErr), "denomination trace not found")
+    call Keeper.DenomHash requires named: req != nil && req.Trace == trace && sdkctx_of(c) == ctx && q == *p.transferKeeper.Keeper
+    call Contains requires text: s == err_text(nativeErr) && substr == "denomination trace not found"
+    call Arguments.Pack requires packed: arguments == method.Outputs && len(args) == 1 && isdyn(args[0], string) && dyn(args[0], string) == ite(found, R, "")
+    ensures refused: !okargs ==> result.1 != nil && len(result.0) == 0
+    ensures found: okargs && found ==> result.0 == ret(Pack, 1, 0) && result.1 == ret(Pack, 1, 1)
+    ensures missing: okargs && !found && missing ==> result.0 == ret(Pack, 2, 0) && result.1 == ret(Pack, 2, 1)
+    ensures other_error: okargs && !found && !missing ==> result.1 != nil && len(result.0) == 0
+@*/
